@@ -1,17 +1,157 @@
 /-
   TwProofs.Facts — obligations about the tables regenerated from the Go sources (TIE-1).
-  Each theorem compares a regenerated table with the table the hand-written model uses;
-  a change of the source table breaks the corresponding obligation.
+
+  `TwModel/Generated/Facts.lean` is rewritten from /repo's working tree on every run.  Each
+  theorem below compares a regenerated table with what the hand-written model uses (or with a
+  list of individually justified code sites).  A source change that alters a table breaks the
+  corresponding obligation; the check then searches for a failing input (see DESIGN.md §4).
 -/
 import TwModel
 
 namespace Tw.FactsOk
 open Tw
 
+/-- every construct the extractor looks for was found -/
 theorem nothing_missing : Gen.missing = [] := by decide
+
+/-! ### F4 / F5: lexer tables -/
 
 theorem keywords_ok : Gen.keywords = Tw.keywords := by decide
 theorem directives_ok : Gen.directives = Tw.directives := by decide
 theorem simpleTokens_ok : Gen.simpleTokens = Tw.simpleTokens := by decide
+
+def sameSet (a c : List TT) : Bool := a.all (c.contains ·) && c.all (a.contains ·)
+
+theorem tokensWithoutParens_ok : sameSet Gen.tokensWithoutParens Tw.tokensWithoutParens = true := by decide
+theorem tokensWithOptionalParens_ok : sameSet Gen.tokensWithOptionalParens Tw.tokensWithOptionalParens = true := by decide
+
+/-- the token types, in declaration order, are exactly the constructors of `TT` -/
+def allTT : List TT :=
+  [.ILLEGAL, .EOF, .IDENT, .HTML, .INT, .FLOAT, .STR, .ADD, .SUB, .MUL, .DIV, .MOD, .INC, .DEC, .NOT, .ASSIGN,
+   .EQ, .NOT_EQ, .LTHAN, .GTHAN, .LTHAN_EQ, .GTHAN_EQ, .LBRACES, .RBRACES, .LBRACE, .RBRACE, .LPAREN, .RPAREN,
+   .LBRACKET, .RBRACKET, .QUESTION, .COLON, .COMMA, .DOT, .SEMI, .TRUE, .FALSE, .NIL, .IN, .IF, .ELSE, .ELSE_IF,
+   .END, .FOR, .USE, .EACH, .BREAK_IF, .CONTINUE_IF, .INSERT, .RESERVE, .BREAK, .CONTINUE, .COMPONENT, .SLOT, .DUMP]
+
+theorem tokenTypes_ok : Gen.tokenTypes = allTT.map TT.name := by decide
+
+/-- `token.String` has a name for every token type (an index past the table would panic) and
+    the names are the ones the model prints in "unexpected token" errors -/
+theorem tokenNames_total : allTT.all (fun t => (Gen.tokenNames.find? fun p => p.1 == t).map (·.2) == some (tokenString t)) = true := by
+  decide
+
+/-! ### F1 / F2 / F3: the Pratt parser's tables -/
+
+def levelOf (name : String) : Nat := ((Gen.levels.find? fun p => p.1 == name).map (·.2)).getD 0
+
+/-- the level constants have the values the model uses (and hence the stated order
+    ternary < equality < comparison < additive < multiplicative < member < prefix < call < index < postfix) -/
+theorem levels_ok :
+    Gen.levels = [("LOWEST", LOWEST), ("TERNARY", TERNARY), ("EQ", EQL), ("LESS_GREATER", LESS_GREATER), ("SUM", SUM),
+      ("PRODUCT", PRODUCT), ("MEMBER_ACCESS", MEMBER_ACCESS), ("PREFIX", PREFIX), ("CALL", CALL), ("INDEX", INDEX),
+      ("POSTFIX", POSTFIX)] := by decide
+
+/-- `parser.precedences` gives every token type the level the model's `precedence` gives it -/
+theorem precedences_ok :
+    allTT.all (fun t =>
+      match Gen.precedences.find? fun p => p.1 == t with
+      | some (_, lv) => levelOf lv == precedence t
+      | none => precedence t == LOWEST) = true := by decide
+
+/-- the registered prefix parse functions are those the model dispatches on -/
+theorem prefixFns_ok :
+    Gen.prefixFns = [(.FALSE, "parseBooleanLiteral"), (.FLOAT, "parseFloatLiteral"), (.IDENT, "parseIdentifier"),
+      (.INT, "parseIntegerLiteral"), (.LBRACE, "parseObjectLiteral"), (.LBRACKET, "parseArrayLiteral"),
+      (.LPAREN, "parseGroupedExpression"), (.NIL, "parseNilLiteral"), (.NOT, "parsePrefixExp"), (.STR, "parseStringLiteral"),
+      (.SUB, "parsePrefixExp"), (.TRUE, "parseBooleanLiteral")] := by decide
+
+/-- the registered infix parse functions agree with the model's `hasInfix` / `isBinaryOp` -/
+theorem infixFns_ok :
+    allTT.all (fun t =>
+      match Gen.infixFns.find? fun p => p.1 == t with
+      | some (_, f) =>
+        hasInfix t && (isBinaryOp t == (f == "parseInfixExp")) &&
+          ((t == .QUESTION) == (f == "parseTernaryExp")) && ((t == .LBRACKET) == (f == "parseIndexExp")) &&
+          ((t == .INC || t == .DEC) == (f == "parsePostfixExp")) && ((t == .DOT) == (f == "parseDotExp"))
+      | none => !hasInfix t) = true := by decide
+
+/-- the binding power passed at every `parseExpression` call site: the right operand of a binary
+    operator at the operator's own level (`precedence := p.curPrecedence()`), the operand of a
+    prefix operator at PREFIX, the then-part of a ternary at TERNARY, everything else at LOWEST -/
+theorem parseExpressionCalls_ok :
+    Gen.parseExpressionCalls =
+      [("parseAssignStmt", "LOWEST"), ("parseBreakIfStmt", "LOWEST"), ("parseComponentStmt", "LOWEST"),
+       ("parseContinueIfStmt", "LOWEST"), ("parseEachStmt", "LOWEST"), ("parseElseIfStmt", "LOWEST"),
+       ("parseExpressionList", "LOWEST"), ("parseExpressionList", "LOWEST"), ("parseExpressionStmt", "LOWEST"),
+       ("parseForStmt", "LOWEST"), ("parseGroupedExpression", "LOWEST"), ("parseIfStmt", "LOWEST"),
+       ("parseIndexExp", "LOWEST"), ("parseInfixExp", "precedence"), ("parseInsertStmt", "LOWEST"),
+       ("parseObjectLiteral", "LOWEST"), ("parseObjectLiteral", "LOWEST"), ("parsePrefixExp", "PREFIX"),
+       ("parseTernaryExp", "LOWEST"), ("parseTernaryExp", "TERNARY")] := by decide
+
+/-! ### F6: built-in functions -/
+
+def typeConst : VType → String
+  | .STRING => "STR_OBJ" | .ARRAY => "ARR_OBJ" | .FLOAT => "FLOAT_OBJ" | .INTEGER => "INT_OBJ" | .BOOLEAN => "BOOL_OBJ"
+  | .NIL => "NIL_OBJ" | .OBJECT => "OBJ_OBJ"
+
+theorem builtins_ok :
+    [VType.STRING, .ARRAY, .FLOAT, .INTEGER, .BOOLEAN, .NIL, .OBJECT].all (fun ty =>
+      ((Gen.builtins.find? fun p => p.1 == typeConst ty).map (·.2)).getD [] == builtinNames ty) = true := by decide
+
+/-- every name in the table is implemented by the model's dispatcher (on a probe receiver) -/
+theorem builtins_dispatch :
+    (builtinNames .STRING).all (fun n => (strBuiltin (b n) [] []).isSome) &&
+    (builtinNames .ARRAY).all (fun n => (arrBuiltin (b n) [] []).isSome) &&
+    (builtinNames .FLOAT).all (fun n => (floatBuiltin (b n) 0.0).isSome) &&
+    (builtinNames .INTEGER).all (fun n => (intBuiltin (b n) 0 []).isSome) &&
+    (builtinNames .BOOLEAN).all (fun n => (boolBuiltin (b n) true []).isSome) = true := by decide
+
+/-! ### F7 / F8: messages, defaults -/
+
+/-- every error constant the model raises has a format string in `fail/fail.go` -/
+def usedCodes : List String :=
+  ["ErrEmptyBraces", "ErrWrongNextToken", "ErrExpectedExpression", "ErrCouldNotParseAs", "ErrNoPrefixParseFunc",
+   "ErrIllegalToken", "ErrUnexpectedEOF", "ErrElseifCannotFollowElse", "ErrExpectedObjectLiteral", "ErrExpectedComponentName",
+   "ErrDuplicateInserts", "ErrUndefinedInsert", "ErrUndefinedComponent", "ErrSlotNotDefined", "ErrDefaultSlotNotDefined",
+   "ErrDuplicateSlotUsage", "ErrComponentMustHaveBlock", "ErrInsertMustHaveContent", "ErrIdentifierNotFound",
+   "ErrIndexNotSupported", "ErrUnknownOperator", "ErrTypeMismatch", "ErrUnknownTypeForOperator", "ErrPrefixOperatorIsWrong",
+   "ErrUseStmtMustHaveProgram", "ErrUseStmtNotAllowed", "ErrLoopVariableIsReserved", "ErrVariableTypeMismatch",
+   "ErrDotOperatorNotSupported", "ErrPropertyNotFound", "ErrDivisionByZero", "ErrEachNotArray", "ErrNoFuncForThisType",
+   "ErrFuncRequiresOneArg", "ErrFuncFirstArgInt", "ErrFuncFirstArgStr", "ErrFuncSecondArgInt", "ErrFuncSecondArgStr",
+   "ErrFuncMaxArgs", "ErrFuncArgNegative", "ErrFuncResultTooLong", "ErrUnsupportedType", "ErrTemplateNotFound",
+   "ErrFuncAlreadyDefined"]
+
+theorem errFormats_cover : usedCodes.all (fun c => (fmtLookup c).isSome) = true := by decide
+
+theorem configDefaults_ok : Gen.configDefaults.length = 4 := by decide
+
+/-! ### F9 / F10 / F11: code sites -/
+
+/-- F9: on the paths from String / Response / EvaluateString / EvaluateFile the only writes to
+    package-level state are atomic stores of the mode flag (which no render reads: C16) -/
+theorem renderPathWrites_ok :
+    Gen.renderPathWrites.all (fun w => w.2.1 == "textwire.usesTemplates" && w.2.2 == "atomic") = true := by decide
+
+/-- F9: all writes to package-level variables of the module -/
+theorem stateWrites_ok :
+    Gen.stateWrites.all (fun w =>
+      [("textwire.Configure", "textwire.userConfig"), ("textwire.Configure", "textwire.usesTemplates"),
+       ("textwire.EvaluateFile", "textwire.usesTemplates"), ("textwire.EvaluateString", "textwire.usesTemplates"),
+       ("textwire.RegisterArrFunc", "textwire.customFunc"), ("textwire.RegisterBoolFunc", "textwire.customFunc"),
+       ("textwire.RegisterFloatFunc", "textwire.customFunc"), ("textwire.RegisterIntFunc", "textwire.customFunc"),
+       ("textwire.RegisterStrFunc", "textwire.customFunc")].contains (w.1, w.2.1)) = true := by decide
+
+/-- F10: every `range` over a map in the sources, each either building another map / a key list
+    that is sorted before use, or order-insensitive:
+    * `ObjectLiteral.String` (AST printing, not on any render path)
+    * `Program.ApplyInserts` over the layout's reserves (assigns `reserve.Insert`, commutative)
+    * `checkUndefinedInsert`, `evaluator.sortedKeys`, `EnvFromMap`, `Obj.sortedKeys`, `parsePrograms` (collect keys, then `sort.Strings`)
+    * `Obj.Val` (builds a map), `token.LongestDirective` (a maximum) -/
+def expectedMapRanges : List (String × String) :=
+  [("ast.ObjectLiteral.String", "ol.Pairs"), ("ast.Program.ApplyInserts", "p.Reserves"),
+   ("ast.Program.checkUndefinedInsert", "inserts"), ("evaluator.sortedKeys", "pairs"), ("object.EnvFromMap", "data"),
+   ("object.Obj.Val", "o.Pairs"), ("object.Obj.sortedKeys", "o.Pairs"), ("textwire.parsePrograms", "paths"),
+   ("token.LongestDirective", "directives")]
+
+theorem mapRanges_ok : Gen.mapRanges.all (expectedMapRanges.contains ·) = true := by decide
 
 end Tw.FactsOk
